@@ -120,17 +120,10 @@ theorem C03_subst_valid_implies_untouched_partial (hT : rebuildTestsChildSource 
 theorem C03_tiles_invariant (R : Render) (rs : Bool) (n : Node) (ie : Bool) :
     tilesB R ie (refresh rs n) = tilesB R ie n := tiles_refresh R rs n ie
 
-/-- the tables regenerated from the code: which handlers `FortranCodegenConservative` overrides and which status each consults
-(the model's dispatch), the indentation steps of the default style -/
+/-- the tables regenerated from the code: which handlers `FortranCodegenConservative` overrides (the model's dispatch by kind), the indentation steps of the default style -/
 theorem C03_tables_agree :
     conservativeHandlers = ["visit_Assignment", "visit_CallStatement", "visit_Comment", "visit_Conditional", "visit_Import",
       "visit_Loop", "visit_Module", "visit_Node", "visit_Section", "visit_Subroutine", "visit_VariableDeclaration"] ∧
-    statusBranches = [("visit_Assignment", "INVALID_NODE"), ("visit_Assignment", "VALID"), ("visit_CallStatement", "VALID"),
-      ("visit_Comment", "VALID"), ("visit_Conditional", "INVALID_CHILDREN"), ("visit_Conditional", "VALID"),
-      ("visit_Import", "VALID"), ("visit_Loop", "INVALID_CHILDREN"), ("visit_Loop", "VALID"),
-      ("visit_Module", "INVALID_CHILDREN"), ("visit_Module", "VALID"), ("visit_Node", "VALID"), ("visit_Section", "VALID"),
-      ("visit_Subroutine", "INVALID_CHILDREN"), ("visit_Subroutine", "VALID"),
-      ("visit_VariableDeclaration", "INVALID_NODE"), ("visit_VariableDeclaration", "VALID")] ∧
     loopIndent = 2 ∧ conditionalIndent = 2 := by decide
 
 end LokiModel.C03
